@@ -409,7 +409,7 @@ class LinksMachine(TraceMachine):
         self.labels.add("bystander")
 
     # ---- one dispatcher rule (declared twice) keeps the rule mix at record / user / cleanup ------
-    USER_OPS = (["modify"] * 4 + ["replace"] * 3 + ["add_in_dir"] * 2 + ["rename_in_dir"] * 2 + ["move_in_dir"] * 2
+    USER_OPS = (["modify"] * 4 + ["replace"] * 5 + ["add_in_dir"] * 2 + ["rename_in_dir"] * 2 + ["move_in_dir"] * 2
                 + ["delete_in_dir", "remove", "create", "bystander"])
 
     def _user(self, what, slot, sub, content, flag, delta, name, kind, tree, then_cleanup, recycle, dest):
@@ -431,14 +431,14 @@ class LinksMachine(TraceMachine):
             self.user_create(slot=slot, kind=kind, content=content, tree=tree, delta=delta)
         else:
             self.bystander(i=slot % len(BYSTANDERS), content=content, delta=delta)
-        if then_cleanup and not self.failed:
-            self.cleanup(mask=0, ghost=False)
+        if then_cleanup is not None and then_cleanup is not False and not self.failed:
+            self.cleanup(mask=0 if then_cleanup is True else then_cleanup, ghost=False)
 
     _USER_ARGS = dict(  # noqa: C408
         what=st.sampled_from(USER_OPS), slot=slot_s, sub=st.integers(0, 11), content=content_s,
         flag=st.sampled_from([True, True, False]), delta=delta_s,
         name=st.sampled_from(INNER + ["new", "renamed"]), kind=st.sampled_from(["file", "dir"]), tree=tree_s,
-        then_cleanup=st.booleans(), recycle=st.sampled_from([False, False, True]),
+        then_cleanup=st.sampled_from([None, 0, 0, 0, 0, 2 ** len(SLOTS) - 1]), recycle=st.sampled_from([False, False, True]),
         dest=st.sampled_from(SUBDIRS))
 
     @rule(**_USER_ARGS)
